@@ -17,6 +17,7 @@ import rx
 from ..common import Check, Outcome, Snap, subscribe, subscribe2, bootstrap, WORK
 
 rs = bootstrap()
+from ..progs import call          # noqa: E402  (positional / keyword calling conventions, see progs.call)
 import rxsci.container.csv as csv                    # noqa: E402
 import rxsci.framing.line as line                    # noqa: E402
 
@@ -165,7 +166,7 @@ class C18(Check):
         Row = namedtuple('Row', names)
         src = [Row(*r) for r in rows]
         dtype = [(n, TYPES[t]) for n, t in zip(names, cols)]
-        parser = csv.create_line_parser(dtype=dtype, separator=sep, escapechar=esc)
+        parser = call(csv.create_line_parser, [('dtype', dtype), ('none_values', []), ('separator', sep), ('escapechar', esc)])
         out.tags += [case['mode'], 'cols=%d' % len(cols), 'skind=' + case['rows']['skind'], 'fkind=' + case['rows']['fkind'],
                      'sep=' + ('tab' if sep == '\t' else sep if len(sep) == 1 else 'multi'), 'esc=' + esc]
         special = set(sep) | {'"', esc, ' ', '\t'}
@@ -177,8 +178,8 @@ class C18(Check):
                 out.observed['rows_needing_quote_merge'] += 1
 
         if case['mode'] == 'stream':
-            got = subscribe2(rx.from_(src).pipe(csv.dump(separator=sep, escapechar=esc), line.unframe(),
-                                                csv.load(parser)), out, 'dump | unframe | load', same=lambda x, y: repr(x) == repr(y))
+            got = subscribe2(rx.from_(src).pipe(call(csv.dump, [('header', True), ('separator', sep), ('escapechar', esc)]), line.unframe(),
+                                                call(csv.load, [('parse_line', parser)])), out, 'dump | unframe | load', same=lambda x, y: repr(x) == repr(y))
         else:
             enc = case['encoding']
             out.tags.append('enc=%s' % enc)
@@ -190,11 +191,11 @@ class C18(Check):
                     # pushed source + file read back inside the completion callback (see progs.dump_pushed)
                     from ..progs import dump_pushed
                     out.tags.append('pushed-source')
-                    w = dump_pushed(lambda o: o.pipe(csv.dump_to_file(path, separator=sep, escapechar=esc, encoding=enc)), src, path, out, 'csv.dump_to_file')
+                    w = dump_pushed(lambda o: o.pipe(call(csv.dump_to_file, [('filename', path), ('header', True), ('separator', sep), ('escapechar', esc), ('newline', '\n'), ('encoding', enc)])), src, path, out, 'csv.dump_to_file')
                     if out.failures:
                         return out
                 else:
-                    w = subscribe(rx.from_(src).pipe(csv.dump_to_file(path, separator=sep, escapechar=esc, encoding=enc)), Snap())
+                    w = subscribe(rx.from_(src).pipe(call(csv.dump_to_file, [('filename', path), ('header', True), ('separator', sep), ('escapechar', esc), ('newline', '\n'), ('encoding', enc)])), Snap())
             except Exception as e:      # noqa: BLE001
                 w = Snap()
                 w.err = e
@@ -211,7 +212,7 @@ class C18(Check):
                     raw = fb.read()
                 if any((raw[b] & 0xC0) == 0x80 for b in range(65536, len(raw), 65536)):
                     out.tags.append('multibyte-char-across-a-64KiB-boundary')
-            got = subscribe2(csv.load_from_file(path, parser, encoding=enc), out, 'load_from_file', same=lambda x, y: repr(x) == repr(y))
+            got = subscribe2(call(csv.load_from_file, [('filename', path), ('parse_line', parser), ('skip', 0), ('encoding', enc)]), out, 'load_from_file', same=lambda x, y: repr(x) == repr(y))
 
         def mech_of(i=None, j=None):
             """mechanism classifier (only used if a finding is recorded as known instead of fixed)"""
